@@ -88,7 +88,7 @@ knot_insertion = Contract(
     params={'kv': Obj(kv=Arr('real', 1, numpy=True), p=Int(0), numdofs=Int(1)), 'u': Real()},
     requires=_req,
     callees={'findspan': B.findspan_m},
-    loops={0: LoopSpec(r'for i in range\(k - p \+ 1\)', inv=_inv1),
+    loops={0: LoopSpec(r'for i in range\(k\b[^,]*\):', inv=_inv1),
            1: LoopSpec(r'for i in range\(k \+ 1, n \+ 1\)', inv=_inv2),
            2: LoopSpec(r'for i in reversed\(range\(k - p \+ 1, k \+ 1\)\)', inv=_inv3)},
     ensures=_post,
